@@ -1163,7 +1163,9 @@ func funMin(nums ...*decimal.Big) (*decimal.Big, error) {
 }
 
 func funRound(v *decimal.Big) (*decimal.Big, error) {
-	return newDecimalBig().Round(0), nil
+	result := newDecimalBig().Copy(v)
+	result.Context.RoundingMode = decimal.ToNearestAway
+	return result.RoundToInt(), nil
 }
 
 func funRoundBank(v *decimal.Big) (*decimal.Big, error) {
